@@ -55,6 +55,7 @@ type c06Packet struct {
 	Pad    string     `json:"pad"`
 	PnLen  int        `json:"pnLen"`
 	Other  bool       `json:"other"`
+	Bad    bool       `json:"bad"` // corrupted on the way: well-formed, but it does not authenticate
 }
 type c06Res struct {
 	R    string `json:"r"`
@@ -518,6 +519,8 @@ func c06RunQuic(v *c06Vector, rng *rand.Rand, res *verifutil.Result) {
 	label := fmt.Sprintf("quic v%d dcid=%d hello=%+v pieces=%v", v.Quic.Version, v.Quic.Dcid, v.Hello.Exts, bounds)
 	var dgs [][]byte
 	var layout []string
+	var badUpTo []bool // a corrupted packet has been sent in this or an earlier datagram
+	sawBad := false
 	pn := uint32(0)
 	for _, dg := range v.Quic.Dgs {
 		var d []byte
@@ -543,7 +546,13 @@ func c06RunQuic(v *c06Vector, rng *rand.Rand, res *verifutil.Result) {
 				fr = append(fr, fmt.Sprintf("crypto[%d,%d)", off, end))
 			}
 			payload = append(payload, make([]byte, rng.Intn(40))...)
-			d = append(d, c06InitialPacket(v.Quic.Version, dcid, pn, p.PnLen, payload)...)
+			pkt := c06InitialPacket(v.Quic.Version, dcid, pn, p.PnLen, payload)
+			if p.Bad {
+				pkt[len(pkt)-20] ^= 0x40 // inside the protected payload, after the header-protection sample
+				fr = append(fr, "CORRUPTED")
+				sawBad = true
+			}
+			d = append(d, pkt...)
 			pn++
 			if p.Other {
 				// a coalesced long-header packet of another type (Handshake)
@@ -560,6 +569,7 @@ func c06RunQuic(v *c06Vector, rng *rand.Rand, res *verifutil.Result) {
 			lt = append(lt, fmt.Sprintf("pkt(pn%d/%dB %s %v)", pn-1, p.PnLen, p.Pad, fr))
 		}
 		dgs = append(dgs, d)
+		badUpTo = append(badUpTo, sawBad)
 		layout = append(layout, strings.Join(lt, " "))
 	}
 	key := "c06:" + label + "|" + strings.Join(layout, " || ")
@@ -586,7 +596,8 @@ func c06RunQuic(v *c06Vector, rng *rand.Rand, res *verifutil.Result) {
 		res.Eval(2)
 		want := exp[k]
 		ok := class == want.R || (want.R == "notfound" && class == "needmore") ||
-			(want.R == "needmore" && class == "found" && want.Name != "") // found early: the name is checked below
+			(want.R == "needmore" && class == "found" && want.Name != "") || // found early: the name is checked below
+			badUpTo[k] // after a corrupted packet there is no obligation to find the name; what is reported must be right, the payload intact
 		if !ok {
 			res.Failf(key, label, "%s datagrams %v: after datagram %d sniffing says %s %q, the CRYPTO data received so far %s (%s %q)", label, layout, k+1, class, name,
 				map[bool]string{true: "does not cover the ClientHello yet", false: "covers the whole ClientHello"}[want.R == "needmore"], want.R, c06Expected(want.Name))
